@@ -39,7 +39,7 @@ def gen_cases(tier, seed):
     n = 160 if tier == "quick" else 3000
     cases = []
     for i in range(n):
-        cases.append({"kind": "history", "profile": ["mixed", "churn", "pg", "refuse"][i % 4], "n_ops": [10, 14, 20][i % 3] if tier == "quick" else [15, 25, 40][i % 3], "gc": ["default", "every", "seeded", "aggressive"][(i // 3) % 4], "refs": ["strong", "refetch"][(i // 9) % 2], "noop": i % 4 == 0})
+        cases.append({"kind": "history", "profile": ["mixed", "churn", "pg", "refuse", "clip"][i % 5], "n_ops": [10, 14, 20][i % 3] if tier == "quick" else [15, 25, 40][i % 3], "gc": ["default", "every", "seeded", "aggressive"][(i // 3) % 4], "refs": ["strong", "refetch"][(i // 9) % 2], "noop": i % 4 == 0})
     # holes of one drillhole group share their stored arrays: an operation aimed at one hole (first, middle, last) must leave the
     # others' slices and records alone
     for t in range(4):
@@ -260,7 +260,8 @@ def run_drill(case, rec):
 
 
 PROFILES = {
-    "mixed": {"reopen": 0.6},
+    "mixed": {"reopen": 0.6, "clip": 1.5, "copy_out": 0.8, "mk_group": 3.0},
+    "clip": {"mk_group": 6.0, "mk_object": 5.0, "add_data": 2.0, "clip": 7.0, "move": 1.5, "copy": 0.5, "remove": 0.5, "reopen": 0.5},
     "churn": {"remove": 3.5, "copy": 2.5, "move": 3.0, "rename": 2.0, "reopen": 1.0, "gc": 1.0, "listing": 1.0, "move_data": 1.5},
     "pg": {"add_data": 6.0, "pg_add": 4.0, "pg_remove_data": 2.0, "pg_delete": 1.0, "remove": 3.0, "set_values": 4.0, "flag": 2.0},
     "refuse": {"dup_uid": 5.0, "remove_protected": 2.0, "mk_object": 3.0, "add_data": 3.0, "gc": 2.0, "listing": 2.5, "remove": 1.5, "add_data_fail": 2.0},
@@ -417,7 +418,7 @@ def run_case(case, rec):
                 finally:
                     os.remove(tmp)
 
-    eng = hist.Engine(rec, rng, PROP, weights=PROFILES[case["profile"]], monitors=[mon, NoopAtEnd()], gc_plan=case["gc"], ref_policy=case["refs"], n_ops=case["n_ops"])
+    eng = hist.Engine(rec, rng, PROP, weights=PROFILES[case["profile"]], monitors=[mon, NoopAtEnd()], gc_plan=case["gc"], ref_policy=case["refs"], n_ops=case["n_ops"], second_ws=case["profile"] in ("mixed", "clip"))
     eng.run()
     rec.shape = [case["profile"], [(o["op"], o.get("cls", "")) for o in eng.log]]
     rec.sample = {"profile": case["profile"], "history": [short({k: v for k, v in o.items() if k != "removed"}, 160) for o in eng.log[:10]]}
